@@ -99,4 +99,26 @@ example :
   ⟨rfl, by decide, by decide, domTruthy_of_B (by decide), domsNodup_of_B (by decide), by decide,
     by decide, by decide, by decide⟩
 
+/-! ### Partially ordered values (test): on `frozenset`s the negation of an ordering comparison is NOT the "inverse"
+operator — `{0} < {1}` and `{0} >= {1}` are both false — so a negated atom must be evaluated as `Not(Comparator)`,
+which is what `invert` builds; the multiplicity theorems above hold for every value universe because they never
+inspect `applyCmp` -/
+
+theorem C02_poset_not_lt_ne_ge (w : World) :
+    applyCmp w .lt (.set [0]) (.set [1]) = .ok false ∧ applyCmp w .ge (.set [0]) (.set [1]) = .ok false := by
+  constructor <;> rfl
+
+def c02setW : World :=
+  { objs := [{ cls := 0, fields := [("s", .set [0])], veq := false }, { cls := 0, fields := [("s", .set [1])], veq := false }],
+    doms := [(0, [.obj 0, .obj 1]), (1, [.obj 0, .obj 1])] }
+def c02setQ : SQuery := ⟨[.var 0, .var 1], some (.not (.cmp .lt (.attr (.var 0) "s") (.attr (.var 1) "s")))⟩
+
+/-- every one of the four assignments satisfies `not_(x.s < y.s)` over `{0}`, `{1}` (two of them only because the
+sets are incomparable), and each yields exactly one row -/
+theorem C02_poset_negated_atom :
+    evalQuery c02setW c02setQ.toQuery = solutions c02setW c02setQ ∧
+    solutions c02setW c02setQ =
+      .ok [[.obj 0, .obj 0], [.obj 0, .obj 1], [.obj 1, .obj 0], [.obj 1, .obj 1]] := by
+  constructor <;> decide
+
 end KrroodVerif.Eql
